@@ -362,3 +362,22 @@ MUTANTS += [
     M('gf-kernel-overrun', ['C13', 'C07'], A24C, '        for (; dst < lim ;dst += UNROLL, src += UNROLL)', '        for (; dst <= lim ;dst += UNROLL, src += UNROLL)', 'R-KEA', count=2),
     M('gf-kernel-overrun-not-c18', 'C18', A24C, '        for (; dst < lim ;dst += UNROLL, src += UNROLL)', '        for (; dst <= lim ;dst += UNROLL, src += UNROLL)', expect=0, count=2),
 ]
+
+MUTANTS += [
+    # ---- R-OWN-OVERWRITE, R-ML-GIVEUP, R-INIT-ORDER, R-2D-DIVISIBLE
+    REV('revert-rs-dual-role-leak', 'C08', '1abf04d', 'R-OWN-OVERWRITE'),
+    M('overwrite-rs2m-enc-unguarded', 'C08', RS2API, '	if (ofcb->enc_matrix == NULL)\n	{\n		if (of_rs_2m_build_encoding_matrix((of_galois_field_code_cb_t*)ofcb) != OF_STATUS_OK)\n		{\n			OF_PRINT_ERROR(("ERROR: creating encoding matrix failed\\n"))\n				goto error;',
+      '	{\n		if (of_rs_2m_build_encoding_matrix((of_galois_field_code_cb_t*)ofcb) != OF_STATUS_OK)\n		{\n			OF_PRINT_ERROR(("ERROR: creating encoding matrix failed\\n"))\n				goto error;', 'R-OWN-OVERWRITE'),
+    M('overwrite-index-rows-unguarded', 'C08', MLDEC, '	if (ofcb->index_rows == NULL)\n	{\n		if ((ofcb->index_rows = (UINT32 *) of_calloc (ofcb->nb_repair_symbols, sizeof (UINT32))) == NULL)',
+      '	{\n		if ((ofcb->index_rows = (UINT32 *) of_calloc (ofcb->nb_repair_symbols, sizeof (UINT32))) == NULL)', 'R-OWN-OVERWRITE', count=1),
+    M('ml-giveup-le', 'C03', MLDEC, '	else if (ofcb->remain_rows < ofcb->remain_cols)', '	else if (ofcb->remain_rows <= ofcb->remain_cols)', 'R-ML-GIVEUP'),
+    M('ml-giveup-overdetermined', 'C03', MLDEC, '	else if (ofcb->remain_rows < ofcb->remain_cols)', '	else if (ofcb->remain_rows != ofcb->remain_cols)', 'R-ML-GIVEUP'),
+    M('benign-ml-giveup-swapped', 'C03', MLDEC, '	else if (ofcb->remain_rows < ofcb->remain_cols)', '	else if (ofcb->remain_cols > ofcb->remain_rows)', expect=0),
+    M('benign-ml-giveup-removed', 'C03', MLDEC, '	else if (ofcb->remain_rows < ofcb->remain_cols)', '	else if (0)', expect=0),
+    dict(name='init-order-counters-late', props=['C03', 'C04', 'C01'], rule='R-INIT-ORDER', expect=1, edits=[
+        dict(file=LDPCAPI, old='	ofcb->nb_source_symbol_ready = 0; // Number of source symbols ready\n	ofcb->nb_repair_symbol_ready = 0; // Number of parity symbols ready\n', new='', count=1),
+        dict(file=LDPCAPI, old='			of_free (null_symbol);\n		}\n	}\n#endif //OF_USE_DECODER\n	OF_EXIT_FUNCTION\n	return OF_STATUS_OK;\n',
+             new='			of_free (null_symbol);\n		}\n	}\n#endif //OF_USE_DECODER\n	ofcb->nb_source_symbol_ready = 0;\n	ofcb->nb_repair_symbol_ready = 0;\n	OF_EXIT_FUNCTION\n	return OF_STATUS_OK;\n', count=1)]),
+    M('2d-divisible-int', 'C16', PCHKGEN, '	float		d,l;		// code dimensions for 2D pchk matrix', '	UINT32		d,l;		// code dimensions for 2D pchk matrix', 'R-2D-DIVISIBLE'),
+    M('benign-2d-divisible-double', 'C16', PCHKGEN, '	float		d,l;		// code dimensions for 2D pchk matrix', '	double		d,l;		// code dimensions for 2D pchk matrix', expect=0),
+]
